@@ -124,7 +124,8 @@ def run_case(case, idx, scratch):
 def main():
     payload = json.load(sys.stdin)
     scratch = os.getcwd()
-    out = [run_case(c, i, scratch) for i, c in enumerate(payload["cases"])]
+    base = int(payload.get("base", 0))  # several harness processes share one scratch directory
+    out = [run_case(c, base + i, scratch) for i, c in enumerate(payload["cases"])]
     json.dump(out, sys.stdout)
 
 
